@@ -142,11 +142,30 @@ def labels_obs(v, classes):
     idx = {c: i for i, c in enumerate(classes)}
     out = []
 
+    def inside(o, acc, depth=0):
+        """ids of every object of the structure below (and including) o"""
+        if depth > 400:
+            return acc
+        acc.add(id(o))
+        if isinstance(o, (list, tuple)):
+            for x in o:
+                inside(x, acc, depth + 1)
+        elif type(o) in idx:
+            for name, _ in get_arguments(type(o)):
+                inside(getattr(o, name), acc, depth + 1)
+        return acc
+
     def one(o):
         tw = getattr(o, "gengy_types_this_way", None)
         counts = [[idx[k], len(vs)] for k, vs in (tw or {}).items() if k in idx]
-        return [getattr(o, "gengy_nodes", None), getattr(o, "gengy_distance_to_term", None), getattr(o, "gengy_weighted_nodes", None), sorted(counts),
-                bool(getattr(o, "gengy_labeled", False))]
+        lab = [getattr(o, "gengy_nodes", None), getattr(o, "gengy_distance_to_term", None), getattr(o, "gengy_weighted_nodes", None), sorted(counts),
+               bool(getattr(o, "gengy_labeled", False))]
+        if tw:
+            # the index must list objects OF THIS subtree (identity), not equal-looking objects of another program
+            ids = inside(o, set())
+            if any(id(x) not in ids for vs in tw.values() for x in vs):
+                lab.append("foreign-entry")
+        return lab
 
     def walk(o, depth=0):
         if depth > 400:
@@ -290,6 +309,9 @@ def case_enum(c):
     g = rg["ok"]
     from geneticengine.representations.tree.treebased import TreeBasedRepresentation
 
+    if c.get("interleave") is not None:
+        other = dict(c["decl"], considered=c["interleave"])
+        guarded(lambda: extract(other, classes))
     probe = guarded(lambda: mk_decider(c["decider"], ScriptedSource([]), g))
     if "exc" in probe:
         return {"phase": "validate", "res": probe}
